@@ -47,6 +47,7 @@ Report back a short summary (one paragraph per change) and confirm the verificat
 '''
 EMPH = {
  '4': 'AT MOST ONE of the three may be a cache / memoisation / stale-state defect; prefer logic, arithmetic, boundary-condition and control-flow defects for the others.',
+ '6': 'NONE of the three should be a cache / memoisation defect, a bare change of a numeric tolerance, a rewrite of quadraticRoots, or a new Point.__bool__ / changed Point.__eq__ (earlier rounds covered those).  Prefer: (a) an edit in one PUBLIC method that only shows through a DIFFERENT public method which calls it (edit a low-level routine so that its own obvious uses still look right); (b) defects that need a HISTORY: a sequence of two or three API calls on the same object (build, query, transform, convert representation, query again), or an object produced by one operation and fed to another; (c) a rarely taken branch (an exception path, an early return, an `else` that ordinary inputs never reach) made subtly wrong; (d) an off-by-one or a swapped pair in index arithmetic over lists of segments / nodes / samples (first vs last element, closed vs open paths, a path with exactly one or exactly two segments); (e) Python-specific slips: integer vs true division, mutable default arguments, `is` vs `==`, iterating a list while modifying it, shadowed loop variables, `sorted` vs `.sort()`, generator consumed twice.',
  '5': 'NONE of the three should be a cache / memoisation / stale-state defect and none should merely change a numeric tolerance: prefer (a) defects in helpers the property depends on only INDIRECTLY (Point arithmetic and equality, the Segment base class, utils, representations), (b) interactions between two methods or two classes (one of Line / QuadraticBezier / CubicBezier treated differently from the others, a path made of a single segment or of two), (c) boundary conditions of rewritten loops and index arithmetic, (d) sign / orientation / operand-order mistakes that cancel for symmetric inputs, (e) integer-vs-float and exactly-representable-vs-rounded inputs.',
 }
 for pid in (ids or sorted(props)):
